@@ -279,7 +279,7 @@ pub broadcast axiom fn ax_display_capstate(e: CapState, f: &std::fmt::Formatter<
     ensures #[trigger] <CapState as DisplaySpec>::fmt_req(&e, f);
 
 impl MainState {
-//@fn state/conn_cmds.rs MainState::process_cap unit=conn props=C03,C05 rules=R1,R2,R3,R6q,R11
+//@fn state/conn_cmds.rs MainState::process_cap unit=conn props=C03,C05,C02,C06 rules=R1,R2,R3,R6q,R11
 //@replace ~|cs\.iter\(\)\.all\(\|c\| new_caps\.apply_cap\(c\)\)| => verif_apply_all_caps(&mut new_caps, cs)
 //@replace ~|cs\.join\(" "\)| => verif_join_space(cs)
 //@callargs authenticate state,+Tracked(sig)
@@ -299,7 +299,7 @@ impl MainState {
             !final(conn_state).user_state.authenticated ==> vs_same(*final(state), *old(state)) && conn_pre(*final(conn_state), *final(state)), // @prop C02,C03
             final(conn_state).user_state.authenticated && !old(conn_state).user_state.authenticated ==> conn_ok(*final(conn_state), *final(state)) && subcommand is END, // @prop C03
             // a registered connection stays registered and linked to its user
-            old(conn_state).user_state.authenticated ==> final(conn_state).user_state.authenticated && conn_ok(*final(conn_state), *final(state)), // @prop C02
+            old(conn_state).user_state.authenticated ==> final(conn_state).user_state.authenticated && conn_ok(*final(conn_state), *final(state)), // @prop C02,C06
             sym(*final(state)), // @prop C04,C05
             chans_wf(*final(state)), // @prop C04,C08
             no_empty_chan(*final(state)), // @prop C16
